@@ -576,6 +576,11 @@ func Structural(r *rand.Rand, name string, o StructOpts) *Case {
 				Result: t,
 				Spec:   &vref.MethodSpec{Name: mname, Roles: []string{"source"}, Flags: flags},
 			}
+			if s.K == KSlice && g.r.Intn(4) == 0 {
+				// a variadic converter method: the emitted method must be variadic, too
+				m.Params[0].Variadic = true
+				c.Feature("variadic", "true")
+			}
 			if o.MethodSkipCopy && i == 0 && k == 0 {
 				m.Lines = append(m.Lines, "skipCopySameType")
 				m.Spec.Flags.SkipCopy = true
